@@ -424,6 +424,26 @@ func runCacheFile(p *FilePlan, ch *simrt.Choices) *fileRun {
 				}
 			}
 		}
+		// the disk fills up while the cache is saved: the save may fail (and say
+		// so); if it reports success, the file must load back completely
+		for _, k := range []int{0, 1, len(valid) / 3, len(valid) - 1} {
+			if k < 0 {
+				continue
+			}
+			fp := "/tmp/full.file"
+			sim.FS.Remove(fp)
+			if sim.FS.NoSpaceAt == nil {
+				sim.FS.NoSpaceAt = map[string]int{}
+			}
+			sim.FS.NoSpaceAt[fp] = k
+			err := orig.dump(fp)
+			delete(sim.FS.NoSpaceAt, fp)
+			res.Kinds["disk-full-while-saving"]++
+			if err == nil {
+				got, _ := sim.FS.Get(fp)
+				variant("save-reported-success-on-a-full-disk", got, true, nil, true)
+			}
+		}
 		// crash prefixes
 		var ks []int
 		if p.AllPrefixes {
